@@ -192,6 +192,15 @@ func tvList(vs []interface{}) []*tagged.TV {
 	return r
 }
 
+func hasName(ks []pkey, n string) bool {
+	for _, k := range ks {
+		if k.Name == n {
+			return true
+		}
+	}
+	return false
+}
+
 func hasWild(ks []pkey) string {
 	for _, k := range ks {
 		if k.Name == "*" {
@@ -322,7 +331,26 @@ func recordPath(seed int64, n int, w *bufio.Writer, a *Acc) {
 				}
 				events++
 				emit(w, map[string]interface{}{"op": "upd", "key": key, "val": tagged.FromGo(lv), "path": names(ks), "conds": []cond{}, "c": cnt, "post": tagged.FromGo(mv)})
-				if ps := mv.PathsForKey(key); cnt > 1 && len(ps) > 0 {
+				// now and then the caller stores the SAME list object at a second place by a call of its own (sharing that is the
+				// caller's doing); the call below then REPLACES a member of the list at one node -- a new list there, the caller's
+				// object and the other node as they were
+				cnt1 := cnt
+				if ks2 := g.randomPath(m, 3, false); g.r.Intn(2) == 0 && events+3 < n && hasWild(ks2) == "0" && !hasName(ks2, "s") {
+					// (a plain path that does not lead into the list itself; the session ends after this sequence: from here on the
+					// Map is not a tree any more, by the caller's own doing)
+					beforeB := tagged.CanonGo(mv)
+					cntB, errB := mv.UpdateValuesForPath(map[string]interface{}{key: lv}, pathString(ks2))
+					if errB != nil {
+						panic(errB)
+					}
+					if tagged.CanonGo(mv) != beforeB { // (a value replaced by an equal one is no event: the frame predicate counts replacements by their difference)
+						events++
+						emit(w, map[string]interface{}{"op": "upd", "key": key, "val": tagged.FromGo(lv), "path": names(ks2), "conds": []cond{}, "c": cntB, "post": tagged.FromGo(mv)})
+						cnt1 += cntB
+					}
+					sessionLeft = 0
+				}
+				if ps := mv.PathsForKey(key); cnt1 > 1 && len(ps) > 0 {
 					sort.Strings(ps)
 					p2 := strings.Split(ps[g.r.Intn(len(ps))], ".")
 					g.fresh++
@@ -489,6 +517,8 @@ func replayPathSession(line []byte, a *Acc) {
 	var mv mxj.Map
 	same := true
 	note := ""
+	var lastList interface{}
+	lastListNorm := "-"
 	for i, e := range c.Session {
 		last := i == len(c.Session)-1
 		switch e.Op {
@@ -511,7 +541,14 @@ func replayPathSession(line []byte, a *Acc) {
 			// observation-only events: re-execution is the same deterministic call
 			note = e.Op
 		case "upd":
-			n, _ := mv.UpdateValuesForPath(map[string]interface{}{e.Key: e.Val.ToGo()}, strings.Join(e.Path, "."), condStrs(e.Conds, ":")...)
+			// (the recorder passes ONE list object in consecutive calls that store the same list: so does the re-execution)
+			nv := e.Val.ToGo()
+			if _, isList := nv.([]interface{}); isList && e.Val.Norm() == lastListNorm {
+				nv = lastList
+			} else if isList {
+				lastList, lastListNorm = nv, e.Val.Norm()
+			}
+			n, _ := mv.UpdateValuesForPath(map[string]interface{}{e.Key: nv}, strings.Join(e.Path, "."), condStrs(e.Conds, ":")...)
 			if tagged.CanonGo(mv) != e.Post.Norm() || n != e.C {
 				same = false
 			}
